@@ -353,6 +353,28 @@ func genPgpDates(tier string, r *rng) {
 func genC12(tier string, r *rng) {
 	genPgpDates(tier, r)
 	genPgpSig(tier, r.fork()) // tie of Model/PgpSig.lean (Signature.parse and its subpackets) to the copied reader
+	// MPIs with leading zero octets (the reader accepts them, RFC 4880 3.2 notwithstanding): an RSA encryption subkey whose
+	// exponent 257 is written as 00 18 | 00 01 01, and one whose modulus carries a zero octet in front — fingerprint and
+	// key id are over the packet AS IT APPEARS
+	{
+		fs := pgpKeyFactories()
+		for pi := 0; pi < 3; pi++ {
+			n := oddOfBits(r, 2048)
+			nb := n.Bytes()
+			body1 := append(keyHead(1700000100, 1), pgpMPI(nb)...)
+			body1 = append(body1, 0x00, 0x18, 0x00, 0x01, 0x01)
+			body2 := append(keyHead(1700000100, 1), 0x08, 0x08) // 2056 bits declared: one zero octet in front of the modulus
+			body2 = append(body2, 0x00)
+			body2 = append(body2, nb...)
+			body2 = append(body2, pgpMPI([]byte{1, 0, 1})...)
+			for bi, body := range [][]byte{body1, body2} {
+				sub := &pgpKeyMat{algo: 1, created: 1700000100, body: body, bits: []int{2048, 2056}[bi]}
+				b := buildPGP(fs[[]int{6, 3, 0}[pi]](1700000000), []pgpIdentity{{name: "padded <p@x>", flags: 3, sigCreated: 1700000050, lifetime: -1}},
+					[]pgpSubkey{{key: sub, flags: 0x0c, sigCreated: 1700000200, lifetime: -1}}, false)
+				emit("pgp", append([]string{hx(b.binary), "G"}, b.gt...)...)
+			}
+		}
+	}
 	// keys that carry certifications by other people's keys, and unprotected secret-key blocks (incl. ECDH subkeys)
 	{
 		fs := pgpKeyFactories()
